@@ -126,6 +126,27 @@ def dispatch_eval(prog):
             e = run({k: "v"})[0]
             if list(g(e, "schema_path")):
                 out["stamp"] = "the keyword %r is recorded in schema_path (it is transparent there)" % k
+        # the drafts' own vocabularies: one schema holding every keyword name of the draft (in table order and reversed), each keyword
+        # function reporting one error: every keyword runs once and each error leaves stamped with its own keyword, whatever its name
+        for dname, dr in sorted(prog.tables.drafts.items()):
+            names = [n for n in dr.table if n != "$ref"]
+            box = {}
+            mk = lambda name: (lambda validator, value, instance, schema: iter([box["VE"]("%s|0" % name)]))
+            ev2, V2, VE2, log2, made2, _t, _i = _world(prog, extra_validators={n: mk(n) for n in names})
+            box["VE"] = VE2
+            for order in (names, names[::-1]):
+                sch = {n: "value of " + n for n in order}
+                v2 = V2(sch, resolver=Res(log2))
+                got = list(ev2.obj_getattr(v2, "iter_errors")(I))
+                seen = [ev2.obj_getattr(e2, "message").split("|")[0] for e2 in got]
+                if sorted(seen) != sorted(names):
+                    out["all-errors"] = out["all-errors"] or ("%s: a schema holding every keyword of the draft, each reporting one error, gives the errors of %r; expected one "
+                                                               "from each of the %d keywords" % (dname, sorted(seen), len(names)))
+                for e2, k2 in zip(got, seen):
+                    gg = lambda n, e2=e2: ev2.obj_getattr(e2, n)
+                    if gg("validator") != k2 or gg("validator_value") != sch.get(k2) or list(gg("schema_path")) != ([] if k2 == "if" else [k2]):
+                        out["stamp"] = out["stamp"] or ("%s: in a schema holding every keyword of the draft the error reported by %r leaves the dispatcher stamped "
+                                                         "(validator=%r, validator_value=%r, schema_path=%r)" % (dname, k2, gg("validator"), gg("validator_value"), list(gg("schema_path"))))
         # $ref is alone
         out["ref-alone"] = None
         run({"$ref": "#/x", "k1": 1, "k2": 2, "$id": "http://ignored/"})
